@@ -26,7 +26,7 @@
   integer is the exact value, already rounded to 53 bits) or `dec t` (not integer valued) carried as the decimal
   text that Go prints for it (`%v`, FormatFloat 'f' -1 and json all print the same text for the class used
   here: 1e-4 ≤ |x| < 1e21 with at most 15 significant digits, where the shortest round-trip text of the
-  nearest float64 is the canonical text itself).  Anything outside this class is the explicit outcome
+  nearest float64 is the canonical text itself; `%v` switches to the exponent form from 1e6 on: `fmtV`, `fmtVDec`).  Anything outside this class is the explicit outcome
   `Err.unmodelled`, never a silent guess.  float64→int64 of a value ≥ 2^63 is implementation defined in Go;
   it is modelled as what amd64 does (MinInt64) and flagged where used.
 -/
@@ -309,6 +309,31 @@ def fmtFltNat (m : Nat) : Bytes :=
 
 def fmtFlt (i : Int) : Bytes := if i < 0 then 45 :: fmtFltNat i.natAbs else fmtFltNat i.natAbs
 
+/-- `d.ddde+XX` from the significant digits `ds` (no trailing zeros) and the decimal exponent -/
+def expForm (ds : Bytes) (e : Nat) : Bytes :=
+  let mant := match ds with
+    | [] => [48]
+    | [d] => [d]
+    | d :: rest => d :: 46 :: rest
+  mant ++ [101, 43] ++ (if e < 10 then 48 :: natToDec e else natToDec e)
+
+/-- fmt `%v` of an integer valued float64 (strconv 'g' with the shortest digits: exponent form from 1e6 on) -/
+def fmtVNat (m : Nat) : Bytes :=
+  let ds := fmtFltNat m
+  if ds.length ≤ 6 then ds else expForm (dropTrailingZeros ds) (ds.length - 1)
+
+def fmtV (i : Int) : Bytes := if i < 0 then 45 :: fmtVNat i.natAbs else fmtVNat i.natAbs
+
+/-- fmt `%v` of a non-integer float64 given by its canonical decimal text: exponent form once the integer
+    part has seven digits (the small side, below 1e-4, is outside the modelled class) -/
+def fmtVDec (t : Bytes) : Bytes :=
+  let neg := t.head? = some 45
+  let body := if neg then t.drop 1 else t
+  let ip := body.takeWhile isDigit
+  let fr := (body.dropWhile isDigit).drop 1
+  if ip.length < 7 then t
+  else (if neg then [45] else []) ++ expForm (ip ++ fr) (ip.length - 1)
+
 /-! ## ParseAny / FormatAny -/
 
 def lowerByte (b : UInt8) : UInt8 := if 65 ≤ b ∧ b ≤ 90 then b + 32 else b
@@ -344,7 +369,7 @@ def parseNumber (neg : Bool) (ip fr : Bytes) : Except Err Val :=
   if fr'.isEmpty then
     let n := decToNat ip'
     if n = 0 ∧ neg then .error .unmodelled            -- negative zero prints as "-0"
-    else if ip'.length > 19 then .error .unmodelled   -- beyond the integers the tie exercises
+    else if n ≥ 10 ^ 19 then .error .unmodelled       -- beyond the integers the tie exercises
     else .ok (.flt (if neg then -(roundF64 n : Int) else (roundF64 n : Int)))
   else
     let sig := if ip'.isEmpty then (dropZeros fr').length else ip'.length + fr'.length
@@ -365,8 +390,8 @@ def formatAny (J : Json) : Val → Bytes
   | .str s => s
   | .bool b => if b then sTrue else sFalse
   | .int i => intToDec i
-  | .flt i => fmtFlt i
-  | .dec t => t
+  | .flt i => fmtV i
+  | .dec t => fmtVDec t
   | .list l => J.enc (.list l)
   | .map m => J.enc (.map m)
 
@@ -441,6 +466,79 @@ def parseAnyF (J : Json) : Nat → Bytes → Except Err Val
       else .ok (.str s)
 
 def parseAny (J : Json) (s : Bytes) : Except Err Val := parseAnyF J (s.length + 1) s
+
+/-! ## what a JSON round trip does to a value, and when the codec is trusted to do exactly that -/
+
+mutual
+/-- json.Unmarshal into `any` after json.Marshal: every number becomes a float64, nothing else changes -/
+def toF64 : Val → Val
+  | .int i => .flt (roundF64I i)
+  | .list l => .list (toF64L l)
+  | .map m => .map (toF64M m)
+  | .null => .null
+  | .str s => .str s
+  | .flt i => .flt i
+  | .dec t => .dec t
+  | .bool b => .bool b
+def toF64L : List Val → List Val
+  | [] => []
+  | v :: r => toF64 v :: toF64L r
+def toF64M : List (Bytes × Val) → List (Bytes × Val)
+  | [] => []
+  | (k, v) :: r => (k, toF64 v) :: toF64M r
+end
+
+def isCont (b : UInt8) : Bool := 0x80 ≤ b && b ≤ 0xBF
+
+/-- valid UTF-8 (what YAML guarantees for every configured string; json replaces anything else by U+FFFD) -/
+def utf8Valid : Bytes → Bool
+  | [] => true
+  | b :: rest =>
+    if b < 0x80 then utf8Valid rest
+    else if 0xC2 ≤ b ∧ b ≤ 0xDF then
+      match rest with
+      | c :: r => isCont c && utf8Valid r
+      | _ => false
+    else if 0xE0 ≤ b ∧ b ≤ 0xEF then
+      match rest with
+      | c :: d :: r =>
+        isCont c && isCont d && (b ≠ 0xE0 || 0xA0 ≤ c) && (b ≠ 0xED || c ≤ 0x9F) && utf8Valid r
+      | _ => false
+    else if 0xF0 ≤ b ∧ b ≤ 0xF4 then
+      match rest with
+      | c :: d :: e :: r =>
+        isCont c && isCont d && isCont e && (b ≠ 0xF0 || 0x90 ≤ c) && (b ≠ 0xF4 || c ≤ 0x8F) && utf8Valid r
+      | _ => false
+    else false
+
+def keysSorted : List (Bytes × Val) → Bool
+  | [] => true
+  | [_] => true
+  | a :: b :: r => bytesLt a.1 b.1 && keysSorted (b :: r)
+
+mutual
+/-- the values on which encoding/json is expected to round-trip: strings and keys are valid UTF-8, the keys of
+    a map are strictly ascending (a Go map has no order and no repeated key; this is its normal form here) -/
+def jsonSafe : Val → Bool
+  | .str s => utf8Valid s
+  | .list l => jsonSafeL l
+  | .map m => keysSorted m && jsonSafeM m
+  | _ => true
+def jsonSafeL : List Val → Bool
+  | [] => true
+  | v :: r => jsonSafe v && jsonSafeL r
+def jsonSafeM : List (Bytes × Val) → Bool
+  | [] => true
+  | (k, v) :: r => utf8Valid k && jsonSafe v && jsonSafeM r
+end
+
+/-- The assumption about encoding/json under which the list/map part of C17 is stated: a safe list is written
+    as `[`…`]`, a safe map as `{`…`}`, and reading the text back gives the same value with float64 numbers. -/
+structure Json.Lawful (J : Json) : Prop where
+  list_shape : ∀ l, jsonSafeL l = true → ∃ mid, J.enc (.list l) = 91 :: (mid ++ [93])
+  map_shape : ∀ m, jsonSafe (.map m) = true → ∃ mid, J.enc (.map m) = 123 :: (mid ++ [125])
+  list_rt : ∀ l, jsonSafeL l = true → J.dec (J.enc (.list l)) = some (.ok (toF64 (.list l)))
+  map_rt : ∀ m, jsonSafe (.map m) = true → J.dec (J.enc (.map m)) = some (.ok (toF64 (.map m)))
 
 /-! ## the concrete JSON codec used by the driver (encoding/json as the container meets it)
 
@@ -748,6 +846,30 @@ def inAlphabet (al : String) (s : Bytes) : Bool := s.all (fun b => (ofString al)
 def floatSpecials : List Bytes :=
   ["inf", "+inf", "-inf", "infinity", "+infinity", "-infinity", "nan"].map ofString
 
+/-- `[-]d[.ddd]e+XX` with an exponent that makes the value an integer below 1e19 (what `%v` prints for an
+    integer valued float64 from 1e6 on) -/
+def parseExpForm (s : Bytes) : Option Int :=
+  let neg := s.head? = some 45
+  let body := if neg then s.drop 1 else s
+  let ip := body.takeWhile isDigit
+  let r1 := body.dropWhile isDigit
+  let fr := match r1 with
+    | 46 :: r => r.takeWhile isDigit
+    | _ => []
+  let r2 := match r1 with
+    | 46 :: r => r.dropWhile isDigit
+    | _ => r1
+  match r2 with
+  | 101 :: 43 :: ex =>
+    if ip.length = 1 ∧ allDigits ex ∧ (r1.head? ≠ some 46 ∨ ¬ fr.isEmpty) then
+      let e := decToNat ex
+      if fr.length ≤ e ∧ e ≤ 18 then
+        let n := roundF64 (decToNat (ip ++ fr) * 10 ^ (e - fr.length))
+        some (if neg then -(n : Int) else (n : Int))
+      else none
+    else none
+  | _ => none
+
 /-- strconv.ParseFloat(s, 64) on a non-empty string, for the modelled class -/
 def parseFloatStr (s : Bytes) : Except Err FVal :=
   match splitNumber s with
@@ -758,6 +880,9 @@ def parseFloatStr (s : Bytes) : Except Err FVal :=
     | .ok _ => .error .unmodelled
     | .error e => .error e
   | none =>
+    match parseExpForm s with
+    | some i => .ok (.int i)
+    | none =>
     if inAlphabet "0123456789+-.eE" s ∧ s.any isDigit then .error .unmodelled
     else if floatSpecials.contains (lowerAscii s) then .error .unmodelled
     else if inAlphabet "0123456789abcdefABCDEFxXpP_+-." s ∧ s.any (fun b => b = 120 ∨ b = 88 ∨ b = 95) then .error .unmodelled
